@@ -133,12 +133,17 @@ def drain(R) -> None:
     runs and the source would look leaked.  Let the scheduler finish what is queued: after the
     horizon every recorder is disposed, so whatever still runs is either such asynchronous
     disposal or work that escaped disposal (which the oracles then see)."""
+    R.drain = "skipped"
     if R.status != "ok":
         return
     try:
         R.env.sched.start()
+        R.drain = "ok"
     except vt.BudgetExceeded:
-        R.status = "budget"
+        # something periodic survived the horizon disposal and keeps the queue busy for ever (seen when an injected fault makes a
+        # finally-action raise out of CompositeDisposable.dispose, so the sibling timer is never disposed).  The run itself ended
+        # normally; what was logged up to here is judged as usual.
+        R.drain = "budget"
 
 
 def descriptor(base, seed: int, **dev) -> dict:
